@@ -42,6 +42,13 @@ def gen(rng, tier):
         q = {"first": {"fake": False, "segs": segs}, "rest": []}
         yield {"query": q, "doc": doc, "ctx": Q.CTX, "seed": rng.randrange(1 << 30), "std": False, "implicit_root": rng.random() < 0.4,
                "bare": True}
+    # regex literals with the i flag against subjects that case-fold onto ASCII letters from outside ASCII (KELVIN SIGN,
+    # LONG S, dotted / dotless i) and classes with dashes at every position
+    for pat in ["k", "s", "i", "I", "[k-l]", "[\\.-z]", "[a\\--z]", "[-a]", "[a-]", "[^\\.-0]"]:
+        for fl in ("", "i"):
+            doc = [{"a": x} for x in ["k", "K", "\u212a", "s", "S", "\u017f", "i", "I", "\u0130", "\u0131", "-", ".", "a", "z", "0", "/"]]
+            q = {"first": {"fake": False, "segs": [["list", ["filter", ["op", "=~", ["self", ["sel", ["name", "a"]]], ["re", pat, fl]]]]]}, "rest": []}
+            yield {"query": q, "doc": doc, "ctx": Q.CTX, "seed": 11, "std": False, "implicit_root": False}
     # alias pairs: the same AST rendered with alias spellings and with standard spellings must agree;
     # the AST is the same, so the specification result is the same: rendering twice covers it
     for _ in range(n // 3):
